@@ -151,6 +151,7 @@ def run(repo, tier):
     r.rule("R9.2", "no run-time mutated process-global object flows into expression constructors, reference names or emitted text", floor=2)
     r.rule("R9.3", "no ordering or sort key is computed from id() or hash()", floor=1)
     r.rule("R9.5", "containers cached in the caller's parameters mapping are keyed context-uniquely (Type.__eq__ compares the context by identity)", floor=2)
+    r.rule("R9.6", "names generated from the raw bytes of a numpy scalar use only the value-carrying bytes (no padding of unspecified content)", floor=1)
     r.rule("R9.4", "memoisation (lru_cache/cache) of a function that dispatches on the type of its argument is typed", floor=2)
 
     files = [f for f in repo.py_files() if in_scope(f)]
@@ -366,6 +367,29 @@ def run(repo, tier):
              "one and the emitted text depends on what was generated before", loc(rel, n))
     if len(caches) < 2:
         raise AnalysisError(f"R9.5: only {len(caches)} parameter-mapping caches recognised in context.py (expected dtype_index_cache, same_dtype_cache)")
+
+    # ------------------------------------------------------------------ R9.6 raw bytes of scalars in generated names
+    # The in-memory image of a numpy scalar may contain padding of unspecified content (longdouble: 6 of 16 bytes on x86-64):
+    # a name built from `.tobytes()` must be cut to the value-carrying bytes, whose number follows from finfo (nexp, nmant).
+    ti = repo.func("expr.py", "toidentifier")
+    n_raw = 0
+    for n in ast.walk(ti):
+        if isinstance(n, ast.Call) and isinstance(n.func, ast.Attribute) and n.func.attr in ("tobytes", "tostring"):
+            n_raw += 1
+            par = getattr(n, "_parent", None)
+            cut = isinstance(par, ast.Subscript) and par.value is n and isinstance(par.slice, ast.Slice) and par.slice.upper is not None and par.slice.step is None
+            from_finfo = False
+            if cut:
+                up = par.slice.upper
+                names = {x.id for x in ast.walk(up) if isinstance(x, ast.Name)}
+                src = " ".join(norm_src(st.value) for st in ast.walk(ti) if isinstance(st, ast.Assign) and any(isinstance(t, ast.Name) and t.id in names for t in st.targets))
+                src += " " + norm_src(up)
+                from_finfo = ("nmant" in src and "nexp" in src) or "itemsize" not in src and "finfo" in src and "bits" in src
+            r.ob("R9.6", "expr.py::toidentifier raw bytes of a numpy scalar are cut to the value-carrying bytes", cut and from_finfo,
+                 f"`{norm_src(par if cut else n)}`: the whole in-memory image of the scalar enters the generated name; numpy.longdouble has padding "
+                 "bytes of unspecified content, so the name of e.g. longdouble(0.5) differs from process to process", loc("expr.py", n))
+    if n_raw < 1:
+        raise AnalysisError("R9.6: toidentifier no longer encodes numpy floats through tobytes(); the rule needs to be re-anchored")
     return r
 
 
